@@ -2,10 +2,10 @@ package main
 
 import (
 	"fmt"
-	"strings"
 	"go/constant"
 	"go/token"
 	"go/types"
+	"strings"
 
 	"golang.org/x/tools/go/ssa"
 )
@@ -572,7 +572,7 @@ type RetPath struct {
 	Kind  RetKind
 	Call  ssa.CallInstruction // for RetForward
 	Val   ssa.Value
-	Edge  *Fact // branch taken from Block towards the phi, if Block ends in an If
+	Edge  *Fact           // branch taken from Block towards the phi, if Block ends in an If
 	To    *ssa.BasicBlock // the phi's block when this way of returning is a phi edge from Block
 }
 
@@ -1455,6 +1455,7 @@ type PathResult struct {
 	Facts   []Fact // symbolic branch decisions, in order
 	Ret     *ssa.Return
 	Resolve func(ssa.Value) ssa.Value // resolves phis along this path
+	Blocks  map[*ssa.BasicBlock]bool  // blocks on this path
 }
 
 // enumPaths enumerates every feasible acyclic path of fn, resolving phis by
@@ -1527,7 +1528,11 @@ func enumPaths(fn *ssa.Function, budget int, visit func(PathResult)) bool {
 				ok = false
 				return
 			}
-			visit(PathResult{Facts: append([]Fact(nil), facts...), Ret: t, Resolve: res})
+			blocks := map[*ssa.BasicBlock]bool{}
+			for k := range onPath {
+				blocks[k] = true
+			}
+			visit(PathResult{Facts: append([]Fact(nil), facts...), Ret: t, Resolve: res, Blocks: blocks})
 		case *ssa.If:
 			v, truth := res(t.Cond), true
 			for {
